@@ -16,20 +16,22 @@ structure Strtoul where
   erange : Bool      -- errno := ERANGE
   deriving Repr, DecidableEq
 
+/-- the digit part: `orig` is the whole input (returned as `rest` when nothing converts) -/
+def strtoulCore (orig : Str) (neg : Bool) (s2 : Str) : Strtoul :=
+  if (s2.takeWhile isDigit).isEmpty then ⟨0, orig, false, false⟩
+  else if Nat.ofDigitChars 10 (s2.takeWhile isDigit) 0 > ULONG_MAX then
+    ⟨ULONG_MAX, s2.dropWhile isDigit, true, true⟩
+  else if neg then
+    ⟨(U64 - Nat.ofDigitChars 10 (s2.takeWhile isDigit) 0) % U64, s2.dropWhile isDigit, true, false⟩
+  else ⟨Nat.ofDigitChars 10 (s2.takeWhile isDigit) 0, s2.dropWhile isDigit, true, false⟩
+
+/-- white space, an optional sign, decimal digits; clamps to ULONG_MAX (ERANGE); a `-` sign
+    negates in `unsigned long` -/
 def strtoul (s : Str) : Strtoul :=
-  let s1 := s.dropWhile isSpace
-  let (neg, s2) : Bool × Str :=
-    match s1 with
-    | '-' :: t => (true, t)
-    | '+' :: t => (false, t)
-    | _ => (false, s1)
-  let ds := s2.takeWhile isDigit
-  if ds.isEmpty then ⟨0, s, false, false⟩
-  else
-    let v := Nat.ofDigitChars 10 ds 0
-    let rest := s2.dropWhile isDigit
-    if v > ULONG_MAX then ⟨ULONG_MAX, rest, true, true⟩
-    else ⟨if neg then (U64 - v) % U64 else v, rest, true, false⟩
+  match s.dropWhile isSpace with
+  | '-' :: t => strtoulCore s true t
+  | '+' :: t => strtoulCore s false t
+  | s1 => strtoulCore s false s1
 
 /-! ### widths -/
 /-- `_zero_padded(num, width)` -/
